@@ -37,41 +37,7 @@ def r13_1(ctx, R):
                 continue
             n += 1
             tails = [a for (a, b_) in d.back_edges() if b_ == head]
-            # candidate counters: locals with an increment store inside the loop
-            found = None
-            for l, defs in fl.defs.items():
-                incs = []
-                inits = []
-                for (bb, idx, kind, node) in defs:
-                    if kind != "assign":
-                        continue
-                    e = fl.rvalue_expr(node["rv"], bb)
-                    k = _inc_of_local(e, l)
-                    if k is not None and k > 0 and bb in body:
-                        incs.append(bb)
-                    elif e[0] == "const" and bb not in body and d.dominates(bb, head):
-                        inits.append((bb, e[2]))
-                other_defs_in_loop = [bb for (bb, idx, kind, node) in defs if bb in body and bb not in incs]
-                if incs and inits and not other_defs_in_loop:
-                    inc = incs[0]
-                    # every loop cycle that polls a child passes through the increment (cycles that only skip a vacant,
-                    # stale queue entry consume that entry and need not be counted)
-                    dom_ok = all(not _cycle_avoiding(d, body, head, p, {inc}) for p in inside)
-                    # comparison against a constant, exceeding edge leaves the loop
-                    exit_tgt = None
-                    for sb in body:
-                        for tgt, labs in fl.edge_labels(sb).items():
-                            for lab in labs:
-                                if lab[0] == "bool" and lab[1][0] == "binop" and lab[1][1] in ("Gt", "Ge", "Lt", "Le", "Eq", "Ne"):
-                                    a, c = lab[1][2], lab[1][3]
-                                    if (a == ("multi", l) and c[0] == "const") or (c == ("multi", l) and a[0] == "const"):
-                                        exceed = lab[2] if lab[1][1] in ("Gt", "Ge", "Eq") else (not lab[2])
-                                        if (c == ("multi", l)):
-                                            exceed = not exceed if lab[1][1] in ("Gt", "Ge", "Lt", "Le") else exceed
-                                        if exceed and tgt not in body and all(not _cycle_avoiding(d, body, head, p, {sb}) for p in inside):
-                                            exit_tgt = (sb, tgt, c[2] if c[0] == "const" else a[2], lab[1][1])
-                    if dom_ok and exit_tgt:
-                        found = (l, inc, inits[0], exit_tgt)
+            found = find_budget(ctx, R, d, fl, head, body, inside)
             ok = found is not None
             det = "no budget counter found"
             if found is None:
@@ -90,21 +56,11 @@ def r13_1(ctx, R):
                 ctx.ob("R13.1", d, "child-poll-loop-is-budgeted@head-ord%d" % sorted(loops).index(head), ok, d.loc(head), det)
                 continue
             if found:
-                l, inc, init, (sb, tgt, bound, cmp_op) = found
-                wakes = [bb for bb, t, fn in R.task_wake_sites(d)]
-                pend = pending_assign_blocks(d)
-                # on the exit: wake then Pending return, nothing else
-                wake_ok = any(d.dominates(tgt, w) for w in wakes) and \
-                    all(d.must_pass(tgt, d.returns(), [w for w in wakes if d.dominates(tgt, w)]) for _ in [0])
-                pend_ok = any(d.dominates(tgt, p) for p in pend)
-                # the budget admits at least one child poll per call (otherwise nothing is ever polled)
-                try:
-                    room = int(bound) - int(init[1]) - (1 if cmp_op in ("Gt", "Lt") else 2)
-                except ValueError:
-                    room = -1
-                ok = wake_ok and pend_ok and room >= 0
-                det = "counter _%d init %s at %s, +const at %s, exits when count %s %s, exit edge bb%d->bb%d, self-wake on exit: %s, returns Pending: %s, admits >=1 child poll: %s" % (
-                    l, init[1], d.loc(init[0]), d.loc(inc), cmp_op, bound, sb, tgt, wake_ok, pend_ok, room >= 0)
+                ok = found["exit_ok"] and found["room"] >= 1
+                det = ("counter _%d init %s at %s, step %+d at %s, budget exhausted when count %s %s (edge bb%d->bb%d); on exhaustion: "
+                       "leaves the loop, self-wake and Pending on every feasible path: %s (%s); admits >=1 child poll: %s" % (
+                           found["l"], found["init"][1], d.loc(found["init"][0]), found["step"], [d.loc(x) for x in found["steps"]],
+                           found["cmp"], found["bound"], found["sb"], found["tgt"], found["exit_ok"], found["exit_det"], found["room"] >= 1))
             ctx.ob("R13.1", d, "child-poll-loop-is-budgeted@head-ord%d" % sorted(loops).index(head), ok, d.loc(head), det)
     ctx.floor("R13.1", "loops-with-child-poll", n, 1)
     # merge outer loop: back edges only behind a removal
@@ -122,6 +78,149 @@ def r13_1(ctx, R):
             ctx.ob("R13.1", b, "redrain-loop-only-after-removing-a-source", ok, b.loc(head),
                    "back-edge tails %s; REMOVE sites %s" % (tails, [b.loc(r) for r in rems]))
     ctx.floor("R13.1", "merge-redrain-loops", m, 1)
+
+
+def _step_of(e, l):
+    """+k / -k when e is `cell +/- const k` for the cell ("multi", l), else None."""
+    if e[0] == "proj" and e[2] == (".0",):
+        e = e[1]
+    if e[0] == "binop" and e[1] in ("Add", "AddWithOverflow", "AddUnchecked", "Sub", "SubWithOverflow", "SubUnchecked"):
+        a, c = e[2], e[3]
+        if a == ("multi", l) and c[0] == "const":
+            try:
+                k = int(c[2])
+            except ValueError:
+                return None
+            return k if e[1].startswith("Add") else -k
+    if e[0] == "call" and re.search(r"core::num::<impl usize>::(saturating_sub|wrapping_sub|saturating_add|wrapping_add)$", e[1] or "") and \
+            len(e[2]) == 2 and e[2][0] == ("multi", l) and e[2][1][0] == "const":
+        k = int(e[2][1][2])
+        return k if "add" in e[1] else -k
+    return None
+
+
+def find_budget(ctx, R, d, fl, head, body, inside):
+    """A budget cell for the loop (head, body) whose child polls are `inside`: a local -- updated directly or through a
+    `&mut` borrow of it -- initialised to a constant before the loop, changed inside the loop only by constant steps of one
+    direction, stepped on every cycle that polls a child, compared with a constant so that the exhausted edge leads (on
+    every feasible path) out of the loop through a TASK-WAKE to a Pending return."""
+    from lib_flow import sensitive_paths
+    cells = {}
+
+    def cell(l):
+        return cells.setdefault(l, {"inits": [], "steps": [], "other": []})
+    for l, defs in fl.defs.items():
+        for (bb, idx, kind, node) in defs:
+            if kind != "assign":
+                if bb in body:
+                    cell(l)["other"].append(bb)
+                continue
+            e = fl.rvalue_expr(node["rv"], bb)
+            k = _step_of(e, l)
+            if k is not None and bb in body:
+                cell(l)["steps"].append((bb, k))
+            elif e[0] == "const" and bb not in body and d.dominates(bb, head):
+                cell(l)["inits"].append((bb, e[2]))
+            elif bb in body:
+                cell(l)["other"].append(bb)
+    for (sbb, si, st) in fl.stores:
+        if si == "term":
+            continue
+        pe = fl.place_expr(st["place"])
+        if pe[0] == "multi" and pe[1] in fl.mut_borrowed_scalars():
+            l = pe[1]
+            k = _step_of(fl.rvalue_expr(st["rv"], sbb), l)
+            if k is not None and sbb in body:
+                cell(l)["steps"].append((sbb, k))
+            elif sbb in body:
+                cell(l)["other"].append(sbb)
+    wakes = {bb for bb, t, fn in R.task_wake_sites(d)}
+    pend = set(pending_assign_blocks(d))
+    best = None
+    try:
+        all_paths = list(sensitive_paths(d, fl, 2))
+    except RuntimeError:
+        all_paths = None
+
+    def cycle_avoiding(p, avoid):
+        """a flag/variant-feasible loop cycle (head .. head) that polls at p without passing a block of `avoid`"""
+        if not _cycle_avoiding(d, body, head, p, avoid):
+            return False
+        if all_paths is None:
+            return True
+        for kind_, path, know in all_paths:
+            hs = [i for i, x in enumerate(path) if x == head]
+            for a_, b_ in zip(hs, hs[1:]):
+                seg = path[a_:b_]
+                if p in seg and not any(x in avoid for x in seg):
+                    return True
+        return False
+    for l, c_ in cells.items():
+        if not c_["steps"] or not c_["inits"] or c_["other"]:
+            continue
+        dirs = {1 if k > 0 else -1 for _, k in c_["steps"]}
+        if len(dirs) != 1:
+            continue
+        up = dirs == {1}
+        step_bbs = {bb for bb, _ in c_["steps"]}
+        if any(cycle_avoiding(p, step_bbs) for p in inside):
+            continue
+        for sb in body:
+            for tgt, labs in fl.edge_labels(sb).items():
+                for lab in labs:
+                    if not (lab[0] == "bool" and lab[1][0] == "binop" and lab[1][1] in ("Gt", "Ge", "Lt", "Le", "Eq", "Ne")):
+                        continue
+                    op, a, c = lab[1][1], lab[1][2], lab[1][3]
+                    if c == ("multi", l) and a[0] == "const":
+                        a, c = c, a
+                        op = {"Gt": "Lt", "Ge": "Le", "Lt": "Gt", "Le": "Ge"}.get(op, op)
+                    if not (a == ("multi", l) and c[0] == "const"):
+                        continue
+                    big = lab[2] if op in ("Gt", "Ge") else ((not lab[2]) if op in ("Lt", "Le") else None)
+                    if op in ("Eq", "Ne"):
+                        exhausted = lab[2] if op == "Eq" else (not lab[2])
+                    else:
+                        exhausted = big if up else (not big)
+                    if not exhausted:
+                        continue
+                    if any(cycle_avoiding(p, {sb}) for p in inside):
+                        continue
+                    # on exhaustion: out of the loop, self-wake, Pending -- on every feasible path crossing the edge
+                    n_cross = 0
+                    bad = None
+                    try:
+                        for kind_, path, know in (all_paths if all_paths is not None else sensitive_paths(d, fl, 2)):
+                            for i in range(len(path) - 1):
+                                if path[i] == sb and path[i + 1] == tgt:
+                                    n_cross += 1
+                                    rest = path[i + 1:]
+                                    if head in rest:
+                                        bad = "loops again"
+                                    elif not any(x in wakes for x in rest):
+                                        bad = "no TASK-WAKE"
+                                    elif not (kind_ == "return" and any(x in pend for x in rest)):
+                                        bad = "does not return Pending"
+                                    break
+                    except RuntimeError as ex:
+                        bad = str(ex)
+                    exit_ok = n_cross > 0 and bad is None
+                    try:
+                        init_v, bound = int(c_["inits"][0][1]), int(c[2])
+                    except ValueError:
+                        continue
+                    k = abs(c_["steps"][0][1])
+                    dist = (bound - init_v) if up else (init_v - bound)
+                    # number of steps before the exhausted edge is taken: strict comparisons fire one step later
+                    strict = (op in ("Gt", "Lt")) if op not in ("Eq", "Ne") else False
+                    steps_before = dist // k + (1 if strict else 0) if dist >= 0 else 0
+                    # a step before the poll (count += 1; test; poll) admits steps_before - 1 polls; after the poll, steps_before
+                    pre = all(any(d.dominates(s_, p) for s_ in step_bbs) for p in inside)
+                    room = steps_before - (1 if pre else 0)
+                    cand = {"l": l, "init": c_["inits"][0], "step": c_["steps"][0][1], "steps": sorted(step_bbs), "cmp": op, "bound": c[2],
+                            "sb": sb, "tgt": tgt, "exit_ok": exit_ok, "exit_det": bad or "%d feasible crossings" % n_cross, "room": room}
+                    if best is None or (cand["exit_ok"] and not best["exit_ok"]):
+                        best = cand
+    return best
 
 
 def range_budgets(ctx, d):
